@@ -81,13 +81,16 @@ Step(q) ==
 Next == Len(hist) < MaxOps /\ \E q \in live : Step(q)
 
 \* random walk (one successor per step)
+\* a random element, drawn anew at every evaluation: the set mentions the state because TLC evaluates an expression
+\* without variables once and for all (a walk would repeat one choice for ever)
+Pick(S) == RandomElement(IF Len(hist) >= 0 THEN S ELSE {})
 NextSim ==
   /\ Len(hist) < MaxOps /\ live # {}
-  /\ \E q \in {RandomElement(live)} : \E kind \in {RandomElement(1..10)} : \E c \in {RandomElement(Counts)} :
-       CASE kind <= 4 -> (\E op \in {RandomElement({"limit", "skip", "tail"})} : Refuse(op, q, c) \/ Slice(op, q, c))
+  /\ \E q \in {Pick(live)} : \E kind \in {Pick(1..10)} : \E c \in {Pick(Counts)} :
+       CASE kind <= 4 -> (\E op \in {Pick({"limit", "skip", "tail"})} : Refuse(op, q, c) \/ Slice(op, q, c))
          [] kind <= 6 -> (Refuse("take", q, c) \/ Take(q, c))
-         [] kind <= 8 -> (\E k \in {RandomElement({Neg, 0, 1, 2, 3})} : Refuse("tee", q, k) \/ Tee(q, k))
-         [] OTHER -> (\E op \in {RandomElement({"first_one", "last_one", "view"})} : Observe(op, q))
+         [] kind <= 8 -> (\E k \in {Pick({Neg, 0, 1, 2, 3})} : Refuse("tee", q, k) \/ Tee(q, k))
+         [] OTHER -> (\E op \in {Pick({"first_one", "last_one", "view"})} : Observe(op, q))
 Spec == Init /\ [][Next]_vars
 
 \* ---- properties --------------------------------------------------------------
